@@ -87,8 +87,60 @@ impl Name {
 @body: let (nsec_name, nsec_data) = vp_p;
 //%contract
     ensures match r {
-        Some((owner, rec)) => nsec_covers(*owner, *rec, *test_name, deref_opt(soa_name)) && usable_below(*owner, *rec, *test_name),
+        Some((owner, rec)) => nsec_covers(*owner, *rec, *test_name, deref_opt(soa_name)) && usable_below(*owner, *rec, *test_name)
+            && exists|i: int| 0 <= i < nsecs@.len() && (owner, rec) == #[trigger] nsecs@[i],
         None => forall|i: int| 0 <= i < nsecs@.len() ==> !(nsec_covers(*(#[trigger] nsecs@[i]).0, *nsecs@[i].1, *test_name, deref_opt(soa_name)) && usable_below(*nsecs@[i].0, *nsecs@[i].1, *test_name)) }
+//%end
+
+// ---- no_closer_matches (RFC 4035 5.3.4: for a wildcard-expanded answer, no closer match than the wildcard exists):
+//      every wildcard `*.a`, for each proper ancestor `a` of the query name that is deeper than the wildcard's own
+//      parent, must be covered by an NSEC.  Names are opaque; `parent`/`labels`/`star_of` are uninterpreted, and the only
+//      arithmetic fact used is that base_name() of a non-root name has one label less (termination). ----
+pub uninterp spec fn parent(n: Name) -> Name;
+pub uninterp spec fn nlabels(n: Name) -> u8;        // Name::num_labels (a leading `*` is not counted)
+pub uninterp spec fn star_of(n: Name) -> Name;      // *.n
+// the k-th proper ancestor of n (k = 1: its parent)
+pub open spec fn ancestor(n: Name, k: nat) -> Name decreases k { if k == 0 { n } else { parent(ancestor(n, (k - 1) as nat)) } }
+pub struct ProtoError { pub vp: u64 }
+impl Name {
+    #[verifier::external_body]
+    pub fn base_name(&self) -> (r: Name) ensures r == parent(*self), nlabels(*self) > 0 ==> nlabels(r) < nlabels(*self), nlabels(*self) == 0 ==> nlabels(r) == 0 { unimplemented!() }
+    #[verifier::external_body]
+    pub fn num_labels(&self) -> (r: u8) ensures r == nlabels(*self) { unimplemented!() }
+    // Name::prepend_label("*"): fails only when the result would be too long
+    #[verifier::external_body]
+    pub fn prepend_label(&self, l: &str) -> (r: Result<Name, ProtoError>) ensures r matches Ok(w) ==> w == star_of(*self) { unimplemented!() }
+}
+pub open spec fn some_usable_cover(nsecs: Seq<(&Name, &NSEC)>, t: Name, apex: Option<Name>) -> bool {
+    exists|i: int| 0 <= i < nsecs.len() && nsec_covers(*(#[trigger] nsecs[i]).0, *nsecs[i].1, t, apex) && usable_below(*nsecs[i].0, *nsecs[i].1, t)
+}
+//%fn crates/net/src/dnssec/mod.rs :: no_closer_matches
+//%attr #[verifier::loop_isolation(false)]
+//%before "while name.num_labels() > wildcard_base_name.num_labels()"
+    let ghost mut vp_k: nat = 1;
+    proof { reveal_with_fuel(ancestor, 2); assert(ancestor(*query_name, 1) == parent(*query_name)); }
+//%after "while name.num_labels() > wildcard_base_name.num_labels()"
+        invariant
+            vp_k >= 1, name == ancestor(*query_name, vp_k),
+            // every wildcard at an ancestor passed so far is covered
+            forall|j: nat| 1 <= j < vp_k ==> some_usable_cover(nsecs@, star_of(#[trigger] ancestor(*query_name, j)), deref_opt(soa)),
+        decreases nlabels(name)
+//%before "name = name.base_name();"
+        proof {
+            assert(wildcard == star_of(ancestor(*query_name, vp_k)));
+            assert(some_usable_cover(nsecs@, star_of(ancestor(*query_name, vp_k)), deref_opt(soa)));
+            reveal_with_fuel(ancestor, 2);
+            assert(ancestor(*query_name, vp_k + 1) == parent(ancestor(*query_name, vp_k)));
+            vp_k = vp_k + 1;
+        }
+//%contract
+    // C08: `true` only if a wildcard base name was identified and, for every proper ancestor of the query name that has
+    // more labels than it, the wildcard at that ancestor is covered by a usable NSEC
+    ensures r ==> wildcard_base_name is Some
+        && forall|j: nat| j >= 1 && nlabels(ancestor(*query_name, j)) > nlabels(*wildcard_base_name.unwrap())
+            && (forall|i: nat| 1 <= i < j ==> nlabels(#[trigger] ancestor(*query_name, i)) > nlabels(*wildcard_base_name.unwrap()))
+            ==> some_usable_cover(nsecs@, star_of(#[trigger] ancestor(*query_name, j)), deref_opt(soa)),
+//%mutant closer_wildcards_not_checked "find_nsec_covering_record(soa, &wildcard, nsecs).is_none()" => "false"
 //%end
 
 // ---- verify_nsec, the direct-match case (statement-range extraction): an NSEC whose owner IS the query name ----
